@@ -389,6 +389,31 @@ def repeated_names_case(seed):
     return out
 
 
+def blank_names_case(seed):
+    """field names holding blanks (AMReX allows them: 'mag vort', 'x velocity'): minuterie still prints the header time"""
+    rng = random.Random(seed)
+    out = dict(evals=1, keys=[core.khash('blank-names', seed)], dist={'case=field names with blanks (minuterie)': 1},
+               samples=[], violations=[], disagreements=[])
+    ndims = rng.choice([2, 3])
+    pf = gen.gen_deep_plotfile(rng, nlevels=rng.choice([1, 2]), ndims=ndims, nfields=1)
+    pf.fields = rng.sample(['mag vort', 'x velocity', 'a b c d', 'temp', 'Y(H2)', 'heat release rate', 'density'], rng.randint(2, 5))
+    pf.time = rng.choice([0.0, 0.49947225144556617, -1.5, 12.0, 3.0, 2.0, 1.5e-300, 7e5])
+    for lev in pf.levels:
+        lev.data = [gen.gen_payload(rng, tuple([2] * ndims) + (len(pf.fields),), 'ints')]
+    path = os.path.join(core.scratch_dir(f'c18_blank_{seed}'), 'plt00040')
+    os.makedirs(os.path.dirname(path))
+    gen.write_plotfile(pf, path)
+    desc = dict(case='blank names', case_fn='blank_names_case', seed=seed, fields=pf.fields, time=repr(pf.time))
+    res = core.outcome(lambda: run_entry('amr_kitchen.minuterie', ['minuterie', path]))
+    if res[0] != 'ok':
+        out['violations'].append(dict(desc, kind='minuterie-raised', what='minuterie raised: ' + res[1]))
+    else:
+        m = re.search(r"Plotfile time = (\S+)", res[1])
+        if not m or float(m.group(1)) != pf.time:
+            out['violations'].append(dict(desc, kind='wrong-time', what=f"minuterie printed {res[1].strip()!r}, the header time is {pf.time!r}"))
+    return out
+
+
 def lambda_many(_):
     return many_fields_case()
 
@@ -413,6 +438,8 @@ def run(tier, seed):
         rep.merge(r)
     for r in core.run_cases(lambda_many, [0]):
         rep.merge(r)
+    for r in core.run_cases(blank_names_case, [seed * 100000 + 18950 + i for i in range(6 if tier == 'quick' else 60)]):
+        rep.merge(r)
     for r in core.run_cases(repeated_names_case, [seed * 100000 + 18900 + i for i in range(6 if tier == 'quick' else 60)]):
         rep.merge(r)
     rep.obligation('correspondence: Menu.Menu (listing, species, extrema, table rows, minuterie) = parsed standard output of the entry points',
@@ -433,7 +460,8 @@ def run(tier, seed):
 
 def replay(doc):
     core.worker_init(core.REPO, quiet=False)
-    r = repeated_names_case(doc['seed']) if doc.get('case') == 'repeated header names' else run_case(doc['seed'])
+    r = (repeated_names_case(doc['seed']) if doc.get('case') == 'repeated header names' else
+         blank_names_case(doc['seed']) if doc.get('case') == 'blank names' else run_case(doc['seed']))
     bad = r['violations'] + r['disagreements']
     for v in bad:
         print('REPLAY:', v.get('what'))
